@@ -14,6 +14,7 @@ namespace Game
 @[simp] theorem result_setRaiser (g : Game) (i : Nat) : (g.setRaiser i).result = g.result := rfl
 @[simp] theorem result_setCw (g : Game) (x : Int) : (g.setCw x).result = g.result := rfl
 @[simp] theorem result_setPrev (g : Game) (x : Int) : (g.setPrev x).result = g.result := rfl
+@[simp] theorem result_recordBet (g : Game) (i : Nat) : (g.recordBet i).result = g.result := rfl
 @[simp] theorem result_addRoundPot (g : Game) (x : Int) : (g.addRoundPot x).result = g.result := rfl
 @[simp] theorem result_offer (g : Game) (i : Nat) : (g.offer i).result = g.result := rfl
 @[simp] theorem result_setCurrentPlayer (g : Game) (i : Nat) : (g.setCurrentPlayer i).result = g.result := rfl
